@@ -81,3 +81,29 @@ def progress(section, doc, line):
     if module is pm_col_corr:
         return module.geometry_violation(doc, line) or module.progress_violation(doc, line)
     return module.progress_violation(doc, line)
+
+
+# finding id -> name of the witness document of pm_col_corr.WITNESSES (used when pm_col_corr has no FINDING_WITNESS
+# table of its own)
+COL_FINDINGS = {
+    'column-group-dropped-span-duplicated': 'colspan_group_dropped',
+    'find-earlier-break-in-columns-attribute-error': 'colspan_find_earlier_attribute_error',
+    'columns-negative-margin-bottom-overflow': 'columns_negative_margin_bottom',
+}
+
+
+def finding_replays():
+    """{finding id: replay} of the three stage-2 harnesses, whatever they list at present: a finding that its owner
+    repaired and removed from the harness's table simply disappears here (the framework only looks up the ids that
+    known_findings.txt lists for the property, so ids of another property are harmless)."""
+    out = {}
+    try:
+        out.update(pm_oof_corr.finding_replays())
+    except Exception:  # noqa: BLE001
+        pass
+    out.update(getattr(pm_foot_corr, 'FINDING_REPLAYS', {}))
+    table = getattr(pm_col_corr, 'FINDING_WITNESS', COL_FINDINGS)
+    for finding, name in table.items():
+        if name in getattr(pm_col_corr, 'WITNESSES', {}):
+            out[finding] = (lambda name=name: pm_col_corr.replay_witness(name))
+    return out
